@@ -155,6 +155,13 @@ def cmd_unit(args):
     except UnitError as e:
         print("UNDECIDED (unit error):", e)
         return 2
+    if getattr(args, "json", False):
+        print("HQJSON " + json.dumps({"unit": R.name, "status": R.status, "reason": R.reason[:600], "canary_failed": R.canary_failed,
+                                      "verified_fns": len(R.verified_fns), "wall": round(R.wall, 1),
+                                      "failures": [{"fn": f["fn"], "msg": f["msg"], "clause": (f.get("clause") or "")[:200],
+                                                    "failed_requires": (f.get("failed_requires") or "")[:200]} for f in R.failures],
+                                      "undecided": [{"fn": f.get("fn"), "msg": f["msg"][:200]} for f in R.undecided]}))
+        return 0 if (R.status == "ok" and not R.failures) else 1
     print(f"unit {R.name}: status={R.status} verified_fns={len(R.verified_fns)} failures={len(R.failures)} "
           f"undecided={len(R.undecided)} canary_failed={R.canary_failed} wall={R.wall:.1f}s")
     if R.reason:
@@ -209,6 +216,7 @@ def main(argv):
     u.add_argument("-v", "--verbose", action="store_true")
     u.add_argument("--rlimit", type=float, default=30)
     u.add_argument("--seed", type=int, default=None)
+    u.add_argument("--json", action="store_true")
     r = sub.add_parser("rebaseline")
     r.add_argument("names", nargs="+")
     r.add_argument("--rlimit", type=float, default=30)
